@@ -92,6 +92,10 @@ def generate(rng, tier):
         methods.append(rq["method"])
         rp, meta = G.gen_reply(r, k, rq["method"], profile)
         rp["cuts"], rp["gaps"], rp["method"] = [], [], rq["method"]
+        if rp.get("then") == "rst":
+            # whether bytes queued in front of an RST are still delivered is the network's timing, not a
+            # segmentation question: origins close with FIN here
+            rp["then"] = "fin"
         # An origin that sends extra bytes after a complete response poisons its keep-alive connection; whether the
         # garbage is seen before or after the next request is forwarded is the origin's timing, so the outcome may
         # legitimately differ.  Such tails are cut off here (C01 keeps them).
